@@ -31,7 +31,10 @@ def main(argv):
     a = ap.parse_args(argv)
     if a.setup:
         pairs = []
+        ready = set(open(os.path.join(build.ROOT, 'vf', 'ready.txt')).read().split())
         for pid, plan in props.PLANS.items():
+            if pid not in ready:
+                continue
             for j in plan['jobs']:
                 pairs.append((j.harness, j.variant))
         t0 = time.time()
